@@ -28,6 +28,7 @@ type ExecPlan struct {
 	CountSQL    bool    // count SQL statements at the L2 seam
 	Late        bool    // overtaken storage calls may complete late (stragglers)
 	StartAfter  []int   // request i starts once this many storage calls have been released (default 0)
+	Sticky      int     // scheduler bursts (see Sched.Sticky)
 	ParkSQL     bool    // every SQL statement (L2 seam) is a scheduling point too: requests interleave between the statements of one storage call
 }
 
@@ -113,6 +114,7 @@ func (e *Env) Exec(tape *Tape, reqs []*Request, plan ExecPlan) *ExecResult {
 		s.FaultAt[k] = v
 	}
 	s.CancelAfter = plan.CancelAfter
+	s.Sticky = plan.Sticky
 	s.LateCompletions = plan.Late
 	if plan.MaxSteps == 0 {
 		plan.MaxSteps = 20000
